@@ -79,7 +79,7 @@ fn crossed(iss: u32, advanced: u32) -> bool {
 
 fn metamorphic(env: &Env, k: u64, d: &mut Delta) {
     let mut rng = scenario_rng("C12", env.seed, k);
-    let n = env.tier.pick(32, 32);
+    let n = env.tier.pick3(32, 32, 1);
     for i in 0..n {
         d.evaluations += 1;
         let mut pr = gen_params(&mut rng, 250);
@@ -140,7 +140,7 @@ fn metamorphic(env: &Env, k: u64, d: &mut Delta) {
 
 fn primitives(env: &Env, k: u64, d: &mut Delta) {
     let mut rng = scenario_rng("C12p", env.seed, k);
-    let n = env.tier.pick(400_000, 1_500_000);
+    let n = env.tier.pick3(400_000, 1_500_000, 400);
     let half = 1u32 << 31;
     let mut reported = 0;
     for i in 0..n {
